@@ -1,6 +1,6 @@
 """C12 - unlabeled samples do not influence supervised models."""
 import numpy as np
-from sklearn.linear_model import LinearRegression, LogisticRegression, BayesianRidge, SGDClassifier
+from sklearn.linear_model import LinearRegression, LogisticRegression, BayesianRidge, SGDClassifier, SGDRegressor
 from sklearn.ensemble import RandomForestClassifier
 from sklearn.neural_network import MLPClassifier
 from sklearn.naive_bayes import GaussianNB
@@ -73,6 +73,7 @@ LEARNERS = {
     "pwc_prior": ("clf", lambda ml=np.nan: ParzenWindowClassifier(metric_dict={"gamma": 0.2}, class_prior=[1, 2, 0.5], classes=[0, 1, 2], random_state=0, missing_label=ml)),
     "skr_lin": ("reg", lambda ml=np.nan: SklearnRegressor(LinearRegression(), random_state=0, missing_label=ml)),
     "skr_tree": ("reg", lambda ml=np.nan: SklearnRegressor(DecisionTreeRegressor(random_state=0), random_state=0, missing_label=ml)),
+    "skr_sgd_pf": ("reg", lambda ml=np.nan: SklearnRegressor(SGDRegressor(random_state=0, max_iter=5, tol=None, eta0=0.01), random_state=0, missing_label=ml)),
     "skn_br": ("preg", lambda ml=np.nan: SklearnNormalRegressor(BayesianRidge(), random_state=0, missing_label=ml)),
     "skn_gp": ("preg", lambda ml=np.nan: SklearnNormalRegressor(GaussianProcessRegressor(alpha=1e-3, random_state=0), random_state=0, missing_label=ml)),
     "nic": ("preg", lambda ml=np.nan: NICKernelRegressor(metric_dict={"gamma": 0.5}, random_state=0, missing_label=ml)),
@@ -220,6 +221,43 @@ def run_case(desc):
         finally:
             steps.end()
         variants["labels-revealed-in-two-steps-on-one-object"] = None
+    # ---- incremental learners: chunks containing unlabelled rows, and a trailing chunk without any label, must leave
+    # the same model as the labelled rows of the same chunks alone
+    probe = make()
+    if hasattr(probe, "partial_fit") and kind != "multi" and int(rowlab.sum()) >= 2:
+        h = n // 2
+
+        def pf(chunks_):
+            est = make()
+            for Xc, yc, wc in chunks_:
+                if len(Xc) == 0:
+                    continue
+                if wc is None:
+                    est.partial_fit(Xc, yc)
+                else:
+                    est.partial_fit(Xc, yc, sample_weight=wc)
+            return est
+
+        def cut(mask):
+            return [(X[:h][mask[:h]], y[:h][mask[:h]], None if w is None else w[:h][mask[:h]]),
+                    (X[h:][mask[h:]], y[h:][mask[h:]], None if w is None else w[h:][mask[h:]])]
+
+        full = np.ones(n, bool)
+        tail = (X[~rowlab], y[~rowlab], None if w is None else w[~rowlab]) if (~rowlab).any() else \
+            (np.round(rng.randn(2, d), 3), np.full(2, ml), None if w is None else np.ones(2))
+        for vn, chunks_ in (("partial_fit:labelled-rows-of-the-chunks", cut(rowlab)),
+                            ("partial_fit:chunks-with-unlabelled-rows", cut(full)),
+                            ("partial_fit:then-a-chunk-without-labels", cut(rowlab) + [tail])):
+            steps.begin()
+            try:
+                results[vn] = _outputs(kind, pf(chunks_), Q)
+            except steps.StepBudgetExceeded as ex:
+                errors[vn] = "step budget: %s" % ex
+            except Exception as ex:
+                errors[vn] = "%s: %s" % (type(ex).__name__, str(ex)[:150])
+            finally:
+                steps.end()
+            variants[vn] = None
     # a variant with non-finite weights may be rejected by input validation: that is not a verdict
     nf = "weights-of-unlabelled-not-finite"
     if nf in errors and any(t in errors[nf] for t in ("NaN", "nan", "inf", "finite")):
@@ -232,10 +270,21 @@ def run_case(desc):
     if errors and len(errors) < len(variants):
         viol.append({"component": comp, "kind": "fit-raises-in-one-variant-only", "trigger": "any",
                      "detail": "%s: %s; fine for %s" % (ctx, errors, sorted(results))})
+    pf_ref = results.get("partial_fit:labelled-rows-of-the-chunks")
+    if pf_ref is not None:
+        for vn, out in results.items():
+            if not vn.startswith("partial_fit:") or vn == "partial_fit:labelled-rows-of-the-chunks":
+                continue
+            for k in pf_ref:
+                if not _close(pf_ref[k], out[k]):
+                    viol.append({"component": comp, "kind": "unlabelled-samples-change-%s" % k, "trigger": "any",
+                                 "detail": "%s variant '%s' vs the labelled rows of the same chunks: %r vs %r" % (
+                                     ctx, vn, np.asarray(out[k][0]).tolist(), np.asarray(pf_ref[k][0]).tolist())})
+                    break
     ref = results.get("labelled-only")
     if ref is not None:
         for vn, out in results.items():
-            if vn == "labelled-only":
+            if vn == "labelled-only" or vn.startswith("partial_fit:"):
                 continue
             for k in ref:
                 if not _close(ref[k], out[k]):
